@@ -220,7 +220,9 @@ var jC05 = reg(&Judge{
 	Profile: Profile{MinProcs: 2, MaxProcs: 6, EdgeProb: 50, Conds: []string{"process_completed_successfully", "process_completed_successfully", "process_healthy", "process_log_ready", "process_completed", "process_started"},
 		Policies: []string{"", "", "no", "on_failure"}, MaxRestartsMax: 1, BackoffMax: 1,
 		Probes: true, ReadyLines: true, MaxSteps: 8, Codes: []int{0, 1, 1, 2, -1},
-		ExitOnFlags: true, StartErr: true, BadDir: true, APIOps: []string{sc.OpStop}},
+		ExitOnFlags: true, StartErr: true, BadDir: true, APIOps: []string{sc.OpStop},
+		// a failed dependency may be stopped while it waits in its restart back-off
+		BackoffStops: true},
 	Oracle: oracle.C05,
 	Classify: func(h *sc.History, x *oracle.Idx) (bool, []string) {
 		var labels []string
